@@ -108,7 +108,7 @@ pub fn db_json(db: &[Table], max_rows: usize) -> Value {
 
 pub fn replay_json(db: &[Table], q: &GenQuery, engine: &Outcome, reference: &Result<Answer, String>, extra: Value) -> Value {
     json!({
-        "tables": db_json(db, 60),
+        "tables": db_json(db, 2000),
         "engine_sql": q.engine_sql(),
         "reference_sql_full": q.ref_full_sql(),
         "order_keys": q.keys.iter().map(|k| format!("c{}{}{}", k.col, if k.desc {" DESC"} else {""}, if k.nulls_first {" NULLS FIRST"} else {" NULLS LAST"})).collect::<Vec<_>>(),
